@@ -124,7 +124,7 @@ def table_strategy(kind):
     if kind == "SP":
         val = st.integers(1, 4)
     elif kind == "VC":
-        val = st.sampled_from([1 / 8, 1 / 4, 1 / 2, 1, 2, 0.3])
+        val = st.sampled_from([1 / 8, 1 / 4, 1 / 2, 1, 2, 0.3, 0, 0])
     elif kind in ("WRR", "DRR"):
         val = st.integers(1, 4) if kind == "WRR" else st.sampled_from([1, 2, 3, 4, 1.5])
     else:
